@@ -72,7 +72,7 @@ structure W_CutOK (n L : Nat) (cs : List Bits) : Prop where
   size : ∀ g ∈ cs, 0 < g.length ∧ g.length ≤ n ∧ g.length ≤ L ∧ (g.length = n ∨ g.length = L % n)
   sum : (cs.map List.length).sum = L
   count : cs.length = (L + n - 1) / n
-  head : ∀ b0 rest, cs = b0 :: rest → ∀ g ∈ cs, g.length ≤ b0.length
+  head : ∀ b0 rest, cs = b0 :: rest → b0.length = min n L
 
 theorem W_cutMsb_ok (n : Nat) (hn : n ≠ 0) (l : Bits) : W_CutOK n l.length (cutMsb n l) := by
   induction l using W_cutMsb_induct n hn with
@@ -111,12 +111,10 @@ theorem W_cutMsb_ok (n : Nat) (hn : n ≠ 0) (l : Bits) : W_CutOK n l.length (cu
         apply Nat.div_eq_of_lt_le <;> omega
       · have : l.length + n - 1 = (l.length - n + n - 1) + n := by omega
         rw [this, Nat.add_div_right _ (by omega)]
-    · intro b0 rest hcs g hg
+    · intro b0 rest hcs
       injection hcs with hb0 _
       subst hb0
-      have := hsz g hg
-      rw [ht]
-      omega
+      exact ht
 
 theorem W_cut_ok (lsb0 : Bool) (n : Nat) (hn : n ≠ 0) (l : Bits) : W_CutOK n l.length (cut lsb0 n l) := by
   cases lsb0 with
@@ -134,17 +132,16 @@ theorem W_cut_ok (lsb0 : Bool) (n : Nat) (hn : n ≠ 0) (l : Bits) : W_CutOK n l
         funext x; simp
       rw [this]; exact h.sum
     · rw [List.length_map]; exact h.count
-    · intro b0 rest hcs g hg
-      rcases List.mem_map.mp hg with ⟨g', hg', rfl⟩
+    · intro b0 rest hcs
       cases hc : cutMsb n l.reverse with
-      | nil => rw [hc] at hg'; simp at hg'
+      | nil => rw [hc] at hcs; simp at hcs
       | cons c0 cr =>
         rw [hc] at hcs
         simp only [List.map_cons] at hcs
         injection hcs with hb0 _
         subst hb0
         simp only [List.length_reverse]
-        exact h.head c0 cr hc g' hg'
+        exact h.head c0 cr hc
 
 /-! ## decimal length -/
 
@@ -384,5 +381,948 @@ theorem W_formatBits_len {lsb0 : Bool} {bits : Bits} {bpg : Nat} {sep : Str} {f 
     cases lsb0
     · simp only [Bool.false_eq_true, if_false, W_padRight_length]; omega
     · simp only [if_true, W_padLeft_length]; omega
+
+/-! ## `ppLoop` without its running state -/
+
+def W_segs (c : PPCfg) (ow pos : Nat) (x1 : Str) (pad1 : Nat) (sec : Option (Str × Nat)) : List Seg :=
+  let offs := if c.showOffset then offsetSegs c.colour c.lsb0 pos ow else []
+  let s1 := fbSegs c.colour c.lsb0 .purple x1 pad1
+  let s2 := match sec with
+    | none => []
+    | some (x2, pad2) => ⟨false, formatSep⟩ :: fbSegs c.colour c.lsb0 .blue x2 pad2
+  if c.lsb0 then s1 ++ s2 ++ offs else offs ++ s1 ++ s2
+
+/-- One line, given the field widths `W1`, `W2` of the two columns. -/
+def W_line (c : PPCfg) (ow W1 W2 : Nat) (bits : Bits) (pos : Nat) : Except Err Line :=
+  match formatBits c.lsb0 bits c.bpg c.sep c.f1 with
+  | .error e => .error e
+  | .ok fb1 =>
+    match c.f2 with
+    | none => .ok ⟨fb1.groups, none, W_segs c ow pos fb1.x (W1 - fb1.x.length) none⟩
+    | some f2 =>
+      match formatBits c.lsb0 bits c.bpg c.sep f2 with
+      | .error e => .error e
+      | .ok fb2 =>
+        .ok ⟨fb1.groups, some fb2.groups,
+          W_segs c ow pos fb1.x (W1 - fb1.x.length) (some (fb2.x, W2 - fb2.x.length))⟩
+
+def W_loop (c : PPCfg) (ow W1 W2 : Nat) : List Bits → Nat → Except Err (List Line)
+  | [], _ => .ok []
+  | b :: rest, pos =>
+    match W_line c ow W1 W2 b pos with
+    | .error e => .error e
+    | .ok ln =>
+      match W_loop c ow W1 W2 rest (pos + b.length) with
+      | .error e => .error e
+      | .ok ls => .ok (ln :: ls)
+
+/-- The field width of a column: the text length of the first chunk (unless already fixed). -/
+def W_fw (c : PPCfg) (f : Option Fmt) (chunks : List Bits) (fw : Option Nat) : Nat :=
+  match fw with
+  | some w => w
+  | none =>
+    match f, chunks with
+    | some f, b :: _ =>
+      (match formatBits c.lsb0 b c.bpg c.sep f with
+       | .ok fb => fb.x.length
+       | .error _ => 0)
+    | _, _ => 0
+
+theorem W_ppLoop_eq (c : PPCfg) (ow : Nat) : ∀ (chunks : List Bits) (bitpos : Nat) (fw1 fw2 : Option Nat),
+    ppLoop c ow chunks bitpos fw1 fw2
+      = W_loop c ow (W_fw c (some c.f1) chunks fw1) (W_fw c c.f2 chunks fw2) chunks bitpos := by
+  intro chunks
+  induction chunks with
+  | nil => intro bitpos fw1 fw2; simp [ppLoop, W_loop]
+  | cons bits rest ih =>
+    intro bitpos fw1 fw2
+    simp only [ppLoop, W_loop, W_line]
+    cases h1 : formatBits c.lsb0 bits c.bpg c.sep c.f1 with
+    | error e => simp
+    | ok fb1 =>
+      cases hf2 : c.f2 with
+      | none =>
+        simp only []
+        rw [ih, hf2]
+        cases fw1 <;> cases fw2 <;> simp [W_fw, h1, W_segs] <;> rfl
+      | some f2 =>
+        simp only []
+        cases h2 : formatBits c.lsb0 bits c.bpg c.sep f2 with
+        | error e => simp
+        | ok fb2 =>
+          simp only []
+          rw [ih, hf2]
+          cases fw1 <;> cases fw2 <;> simp [W_fw, h1, h2, W_segs] <;> rfl
+
+/-! ## what the segments of a line show -/
+
+def W_vis (segs : List Seg) : Str := (segs.filter fun s => !s.esc).flatMap (·.text)
+def W_emit (segs : List Seg) : Str := segs.flatMap (·.text)
+
+theorem W_visible_eq (ln : Line) : ln.visible = W_vis ln.segs := rfl
+theorem W_emitted_eq (ln : Line) : ln.emitted = W_emit ln.segs := rfl
+
+def W_secLen : Option (Str × Nat) → Nat
+  | none => 0
+  | some (x2, pad2) => 3 + x2.length + pad2
+
+theorem W_segs_vis_length (c : PPCfg) (ow pos : Nat) (x1 : Str) (pad1 : Nat) (sec : Option (Str × Nat)) :
+    (W_vis (W_segs c ow pos x1 pad1 sec)).length
+      = (if c.showOffset then max (ow - 2) (natDec pos).length + 2 else 0) + x1.length + pad1 + W_secLen sec := by
+  rcases c with ⟨f1, f2, bpg, width, sep, so, lsb0, colour⟩
+  rcases sec with _ | ⟨x2, pad2⟩ <;> cases lsb0 <;> cases so <;>
+    simp [W_segs, W_vis, fbSegs, offsetSegs, ink, W_secLen, formatSep, W_padLeft_length, W_padRight_length] <;> omega
+
+theorem W_segs_vis_text (c : PPCfg) (ow pos : Nat) (x1 : Str) (pad1 : Nat) (sec : Option (Str × Nat)) :
+    ∃ pre post, W_vis (W_segs c ow pos x1 pad1 sec) = pre ++ x1 ++ post := by
+  rcases c with ⟨f1, f2, bpg, width, sep, so, lsb0, colour⟩
+  cases lsb0
+  · refine ⟨if so then padLeft (ow - 2) (natDec pos) ++ [':', ' '] else [], List.replicate pad1 ' ' ++
+      (match sec with | none => [] | some (x2, pad2) => formatSep ++ x2 ++ List.replicate pad2 ' '), ?_⟩
+    rcases sec with _ | ⟨x2, pad2⟩ <;> cases so <;>
+      simp [W_segs, W_vis, fbSegs, offsetSegs, ink]
+  · refine ⟨List.replicate pad1 ' ', (match sec with | none => [] | some (x2, pad2) => formatSep ++ List.replicate pad2 ' ' ++ x2) ++
+      (if so then [' ', ':'] ++ padRight (ow - 2) (natDec pos) else []), ?_⟩
+    rcases sec with _ | ⟨x2, pad2⟩ <;> cases so <;>
+      simp [W_segs, W_vis, fbSegs, offsetSegs, ink]
+
+theorem W_segs_vis_colour (c : PPCfg) (ow pos : Nat) (x1 : Str) (pad1 : Nat) (sec : Option (Str × Nat)) :
+    W_vis (W_segs c ow pos x1 pad1 sec) = W_vis (W_segs { c with colour := false } ow pos x1 pad1 sec) := by
+  rcases c with ⟨f1, f2, bpg, width, sep, so, lsb0, colour⟩
+  rcases sec with _ | ⟨x2, pad2⟩ <;> cases lsb0 <;> cases so <;>
+    simp [W_segs, W_vis, fbSegs, offsetSegs, ink]
+
+theorem W_segs_emit_nocolour (c : PPCfg) (hc : c.colour = false) (ow pos : Nat) (x1 : Str) (pad1 : Nat)
+    (sec : Option (Str × Nat)) :
+    W_emit (W_segs c ow pos x1 pad1 sec) = W_vis (W_segs c ow pos x1 pad1 sec) := by
+  rcases c with ⟨f1, f2, bpg, width, sep, so, lsb0, colour⟩
+  simp only at hc; subst hc
+  rcases sec with _ | ⟨x2, pad2⟩ <;> cases lsb0 <;> cases so <;>
+    simp [W_segs, W_vis, W_emit, fbSegs, offsetSegs, ink]
+
+/-- Characters of the visible text. -/
+theorem W_segs_vis_mem (c : PPCfg) (ow pos : Nat) (x1 : Str) (pad1 : Nat) (sec : Option (Str × Nat)) (ch : Char)
+    (h : ch ∈ W_vis (W_segs c ow pos x1 pad1 sec)) :
+    ch = ' ' ∨ ch = ':' ∨ ch ∈ natDec pos ∨ ch ∈ x1 ∨ (∃ x2 pad2, sec = some (x2, pad2) ∧ ch ∈ x2) := by
+  rcases c with ⟨f1, f2, bpg, width, sep, so, lsb0, colour⟩
+  rcases sec with _ | ⟨x2, pad2⟩ <;> cases lsb0 <;> cases so <;>
+    simp [W_segs, W_vis, fbSegs, offsetSegs, ink, formatSep, padLeft, padRight] at h ⊢ <;> tauto
+
+/-! ## `W_line`, `W_loop` -/
+
+/-- The second column of a line, as `W_segs` wants it. -/
+def W_sec (c : PPCfg) (W2 : Nat) (bits : Bits) : Option (Str × Nat) :=
+  match c.f2 with
+  | none => none
+  | some f2 =>
+    match formatBits c.lsb0 bits c.bpg c.sep f2 with
+    | .ok fb2 => some (fb2.x, W2 - fb2.x.length)
+    | .error _ => none
+
+theorem W_line_ok {c : PPCfg} {ow W1 W2 : Nat} {bits : Bits} {pos : Nat} {ln : Line}
+    (h : W_line c ow W1 W2 bits pos = .ok ln) :
+    ∃ fb1, formatBits c.lsb0 bits c.bpg c.sep c.f1 = .ok fb1 ∧ ln.groups1 = fb1.groups ∧
+      ln.segs = W_segs c ow pos fb1.x (W1 - fb1.x.length) (W_sec c W2 bits) ∧
+      (c.f2 = none → ln.groups2 = none) ∧
+      (∀ f2, c.f2 = some f2 → ∃ fb2, formatBits c.lsb0 bits c.bpg c.sep f2 = .ok fb2 ∧
+        ln.groups2 = some fb2.groups ∧ W_sec c W2 bits = some (fb2.x, W2 - fb2.x.length)) := by
+  unfold W_line at h
+  cases h1 : formatBits c.lsb0 bits c.bpg c.sep c.f1 with
+  | error e => rw [h1] at h; simp at h
+  | ok fb1 =>
+    rw [h1] at h
+    refine ⟨fb1, rfl, ?_⟩
+    cases hf2 : c.f2 with
+    | none =>
+      rw [hf2] at h
+      simp only [Except.ok.injEq] at h; subst h
+      simp [W_sec, hf2]
+    | some f2 =>
+      rw [hf2] at h
+      simp only at h
+      cases h2 : formatBits c.lsb0 bits c.bpg c.sep f2 with
+      | error e => rw [h2] at h; simp at h
+      | ok fb2 =>
+        rw [h2] at h
+        simp only [Except.ok.injEq] at h; subst h
+        simp [W_sec, hf2, h2]
+
+theorem W_line_error {c : PPCfg} {ow W1 W2 : Nat} {bits : Bits} {pos : Nat} {e : Err}
+    (h : W_line c ow W1 W2 bits pos = .error e) : e = .value := by
+  unfold W_line at h
+  cases h1 : formatBits c.lsb0 bits c.bpg c.sep c.f1 with
+  | error e' => rw [h1] at h; simp only [Except.error.injEq] at h; subst h; exact W_formatBits_error h1
+  | ok fb1 =>
+    rw [h1] at h
+    cases hf2 : c.f2 with
+    | none => rw [hf2] at h; simp at h
+    | some f2 =>
+      rw [hf2] at h
+      simp only at h
+      cases h2 : formatBits c.lsb0 bits c.bpg c.sep f2 with
+      | error e' => rw [h2] at h; simp only [Except.error.injEq] at h; subst h; exact W_formatBits_error h2
+      | ok fb2 => rw [h2] at h; simp at h
+
+theorem W_line_succeeds {c : PPCfg} (ow W1 W2 : Nat) {bits : Bits} (pos : Nat)
+    (h1 : ∃ fb, formatBits c.lsb0 bits c.bpg c.sep c.f1 = .ok fb)
+    (h2 : ∀ f2, c.f2 = some f2 → ∃ fb, formatBits c.lsb0 bits c.bpg c.sep f2 = .ok fb) :
+    ∃ ln, W_line c ow W1 W2 bits pos = .ok ln := by
+  obtain ⟨fb1, h1⟩ := h1
+  unfold W_line
+  rw [h1]
+  cases hf2 : c.f2 with
+  | none => exact ⟨_, rfl⟩
+  | some f2 =>
+    obtain ⟨fb2, h2⟩ := h2 f2 hf2
+    simp only [h2]
+    exact ⟨_, rfl⟩
+
+theorem W_loop_ok {c : PPCfg} {ow W1 W2 : Nat} : ∀ (chunks : List Bits) (pos : Nat) (lines : List Line),
+    W_loop c ow W1 W2 chunks pos = .ok lines →
+    ∀ ln ∈ lines, ∃ b p, b ∈ chunks ∧ p + b.length ≤ pos + (chunks.map List.length).sum ∧
+      W_line c ow W1 W2 b p = .ok ln
+  | [], pos, lines, h => by
+    simp only [W_loop, Except.ok.injEq] at h; subst h; simp
+  | b :: rest, pos, lines, h => by
+    simp only [W_loop] at h
+    cases hl : W_line c ow W1 W2 b pos with
+    | error e => rw [hl] at h; simp at h
+    | ok l0 =>
+      rw [hl] at h
+      cases hr : W_loop c ow W1 W2 rest (pos + b.length) with
+      | error e => rw [hr] at h; simp at h
+      | ok ls =>
+        rw [hr] at h
+        simp only [Except.ok.injEq] at h; subst h
+        intro ln hln
+        rcases List.mem_cons.mp hln with rfl | hln
+        · exact ⟨b, pos, List.mem_cons_self .., by simp, hl⟩
+        · obtain ⟨b', p, hb', hp, hl'⟩ := W_loop_ok rest _ ls hr ln hln
+          refine ⟨b', p, List.mem_cons_of_mem _ hb', ?_, hl'⟩
+          simp only [List.map_cons, List.sum_cons]; omega
+
+theorem W_loop_error {c : PPCfg} {ow W1 W2 : Nat} : ∀ (chunks : List Bits) (pos : Nat) (e : Err),
+    W_loop c ow W1 W2 chunks pos = .error e → e = .value
+  | [], pos, e, h => by simp [W_loop] at h
+  | b :: rest, pos, e, h => by
+    simp only [W_loop] at h
+    cases hl : W_line c ow W1 W2 b pos with
+    | error e' => rw [hl] at h; simp only [Except.error.injEq] at h; subst h; exact W_line_error hl
+    | ok l0 =>
+      rw [hl] at h
+      cases hr : W_loop c ow W1 W2 rest (pos + b.length) with
+      | error e' =>
+        rw [hr] at h; simp only [Except.error.injEq] at h; subst h
+        exact W_loop_error rest _ _ hr
+      | ok ls => rw [hr] at h; simp at h
+
+theorem W_loop_succeeds {c : PPCfg} {ow W1 W2 : Nat} : ∀ (chunks : List Bits) (pos : Nat),
+    (∀ b ∈ chunks, ∀ p, ∃ ln, W_line c ow W1 W2 b p = .ok ln) → ∃ lines, W_loop c ow W1 W2 chunks pos = .ok lines
+  | [], pos, _ => ⟨[], rfl⟩
+  | b :: rest, pos, h => by
+    obtain ⟨l0, hl⟩ := h b (List.mem_cons_self ..) pos
+    obtain ⟨ls, hr⟩ := W_loop_succeeds rest (pos + b.length) (fun x hx => h x (List.mem_cons_of_mem _ hx))
+    exact ⟨l0 :: ls, by simp [W_loop, hl, hr]⟩
+
+/-! ## unrolling `ppLines` and `pp` -/
+
+theorem W_ppLines_ok {c : PPCfg} {data : Bits} {lines : List Line} (h : ppLines c data = .ok lines) :
+    ∃ m, maxBitsPerLine c (offsetWidth c data) = .ok m ∧ m ≠ 0 ∧
+      W_loop c (offsetWidth c data) (W_fw c (some c.f1) (cut c.lsb0 m data) none)
+        (W_fw c c.f2 (cut c.lsb0 m data) none) (cut c.lsb0 m data) 0 = .ok lines := by
+  unfold ppLines at h
+  simp only at h
+  cases hm : maxBitsPerLine c (offsetWidth c data) with
+  | error e => rw [hm] at h; simp at h
+  | ok m =>
+    rw [hm] at h
+    simp only at h
+    by_cases h0 : m = 0
+    · rw [if_pos h0] at h; simp at h
+    · rw [if_neg h0, W_ppLoop_eq] at h
+      exact ⟨m, rfl, h0, h⟩
+
+theorem W_ppLines_error {c : PPCfg} {data : Bits} {e : Err} {m : Nat}
+    (hm : maxBitsPerLine c (offsetWidth c data) = .ok m) (h0 : m ≠ 0) (h : ppLines c data = .error e) :
+    e = .value := by
+  unfold ppLines at h
+  simp only at h
+  rw [hm] at h
+  simp only at h
+  rw [if_neg h0, W_ppLoop_eq] at h
+  exact W_loop_error _ _ _ h
+
+theorem W_ppLines_succeeds {c : PPCfg} {data : Bits} {m : Nat}
+    (hm : maxBitsPerLine c (offsetWidth c data) = .ok m) (h0 : m ≠ 0)
+    (h1 : ∀ b ∈ cut c.lsb0 m data, ∃ fb, formatBits c.lsb0 b c.bpg c.sep c.f1 = .ok fb)
+    (h2 : ∀ f2, c.f2 = some f2 → ∀ b ∈ cut c.lsb0 m data, ∃ fb, formatBits c.lsb0 b c.bpg c.sep f2 = .ok fb) :
+    ∃ lines, ppLines c data = .ok lines := by
+  unfold ppLines
+  simp only
+  rw [hm]
+  simp only
+  rw [if_neg h0, W_ppLoop_eq]
+  apply W_loop_succeeds
+  intro b hb p
+  exact W_line_succeeds _ _ _ _ (h1 b hb) (fun f2 hf2 => h2 f2 hf2 b hb)
+
+/-- The bits `pp` prints as digits. -/
+def W_data (a : PPArgs) (bpg : Nat) (hasLen : Bool) : Bits :=
+  if trailingLen a.l.length bpg hasLen = 0 then a.l else dataPart a.lsb0 a.l (trailingLen a.l.length bpg hasLen)
+
+theorem W_pp_ok {a : PPArgs} {lay : Layout} {bpg : Nat} {hasLen : Bool}
+    (ht : processTokens a.t1 a.t2 = .ok (bpg, hasLen)) (h : pp a = .ok lay) :
+    ppLines (cfgOf a bpg) (W_data a bpg hasLen) = .ok lay.lines ∧
+    lay.trailing = (if trailingLen a.l.length bpg hasLen ≠ 0
+      then some (strFormAlg a.lsb0 (trailingPart a.lsb0 a.l (trailingLen a.l.length bpg hasLen))) else none) := by
+  unfold pp at h
+  rw [ht] at h
+  simp only at h
+  cases hl : ppLines (cfgOf a bpg) (W_data a bpg hasLen) with
+  | error e => unfold W_data at hl; rw [hl] at h; simp at h
+  | ok lines =>
+    unfold W_data at hl; rw [hl] at h
+    simp only [Except.ok.injEq] at h; subst h
+    exact ⟨rfl, rfl⟩
+
+theorem W_data_length (a : PPArgs) (bpg : Nat) (hasLen : Bool) :
+    (W_data a bpg hasLen).length = a.l.length - trailingLen a.l.length bpg hasLen ∧
+    (W_data a bpg hasLen).length = (ppData a.lsb0 a.l (trailingLen a.l.length bpg hasLen)).length := by
+  have ht : trailingLen a.l.length bpg hasLen ≤ a.l.length := by
+    unfold trailingLen; split
+    · exact Nat.mod_le _ _
+    · omega
+  unfold W_data ppData dataPart sliceAB
+  by_cases h0 : trailingLen a.l.length bpg hasLen = 0
+  · rw [if_pos h0, h0]; cases a.lsb0 <;> simp
+  · rw [if_neg h0]
+    cases a.lsb0 <;> simp
+    omega
+
+/-! ## `processTokens` -/
+
+theorem W_defaultGroup_chars : ∀ f : Fmt, 0 < f.b2c (defaultGroup f) := by
+  intro f; cases f <;> decide
+
+theorem W_b2c_pos (f : Fmt) (n : Nat) (hn : n ≠ 0) (hm : n % f.bpc = 0) : 0 < f.b2c n := by
+  rw [W_b2c]
+  have := W_bpc_pos f
+  exact Nat.div_pos (Nat.le_of_dvd (by omega) (Nat.dvd_of_mod_eq_zero hm)) this
+
+theorem W_pair_chars (f1 f2 : Fmt) :
+    0 < f1.b2c (if 2 * bitsPerChar f1 * bitsPerChar f2 ≥ 24 then 2 * bitsPerChar f1 * bitsPerChar f2 / 2
+      else 2 * bitsPerChar f1 * bitsPerChar f2) := by
+  cases f1 <;> cases f2 <;> decide
+
+theorem W_mkDtype_error {t : Tok} {e : Err} (h : mkDtype t = .error e) : e = .value := by
+  unfold mkDtype at h
+  split at h
+  · simp at h
+  · split at h
+    · simp only [Except.error.injEq] at h; exact h.symm
+    · simp at h
+
+theorem W_mkDtype_ok {t : Tok} (h : mkDtype t = .ok ()) : ∀ n, t.len = some n → n % t.fmt.bpc = 0 := by
+  intro n hn
+  unfold mkDtype at h
+  rw [hn] at h
+  simp only at h
+  split at h
+  · simp at h
+  · omega
+
+theorem W_processTokens_error {t1 : Tok} {t2 : Option Tok} {e : Err}
+    (h : processTokens t1 t2 = .error e) : e = .value := by
+  unfold processTokens at h
+  cases h1 : mkDtype t1 with
+  | error e' => rw [h1] at h; simp only [Except.error.injEq] at h; subst h; exact W_mkDtype_error h1
+  | ok u =>
+    rw [h1] at h
+    simp only at h
+    rcases t2 with _ | u2
+    · simp only at h
+      rcases hl1 : t1.len with _ | n
+      · rw [hl1] at h
+        simp only at h
+        split at h
+        · simp only [Except.error.injEq] at h; exact h.symm
+        · simp at h
+      · rw [hl1] at h
+        simp at h
+    · simp only at h
+      cases h2 : mkDtype u2 with
+      | error e' => rw [h2] at h; simp only [Except.error.injEq] at h; subst h; exact W_mkDtype_error h2
+      | ok u' =>
+        rw [h2] at h
+        simp only at h
+        rcases hl1 : t1.len with _ | n <;> rcases hl2 : u2.len with _ | m <;> rw [hl1, hl2] at h <;> simp only at h
+        · simp at h
+        · simp at h
+        · simp at h
+        · by_cases hnm : n ≠ m
+          · rw [if_pos hnm] at h
+            simp only [Except.error.injEq] at h; exact h.symm
+          · rw [if_neg hnm] at h
+            simp at h
+
+theorem W_processTokens_chars {t1 : Tok} {t2 : Option Tok} {bpg : Nat} {hasLen : Bool}
+    (h : processTokens t1 t2 = .ok (bpg, hasLen)) (hb : bpg ≠ 0) :
+    0 < t1.fmt.b2c bpg ∨ ∃ u, t2 = some u ∧ 0 < u.fmt.b2c bpg := by
+  unfold processTokens at h
+  cases h1 : mkDtype t1 with
+  | error e' => rw [h1] at h; simp at h
+  | ok u =>
+    rw [h1] at h
+    have hd1 := W_mkDtype_ok h1
+    simp only at h
+    rcases t2 with _ | u2
+    · simp only at h
+      rcases hl1 : t1.len with _ | n
+      · rw [hl1] at h
+        simp only at h
+        split at h
+        · simp at h
+        · simp only [Except.ok.injEq, Prod.mk.injEq] at h
+          left; rw [← h.1]; exact W_defaultGroup_chars _
+      · rw [hl1] at h
+        simp only [Except.ok.injEq, Prod.mk.injEq] at h
+        left; rw [← h.1] at hb ⊢; exact W_b2c_pos _ _ hb (hd1 n hl1)
+    · simp only at h
+      cases h2 : mkDtype u2 with
+      | error e' => rw [h2] at h; simp at h
+      | ok u' =>
+        rw [h2] at h
+        have hd2 := W_mkDtype_ok h2
+        simp only at h
+        rcases hl1 : t1.len with _ | n <;> rcases hl2 : u2.len with _ | m <;> rw [hl1, hl2] at h <;> simp only at h
+        · simp only [Except.ok.injEq, Prod.mk.injEq] at h
+          left; rw [← h.1]; exact W_pair_chars _ _
+        · simp only [Except.ok.injEq, Prod.mk.injEq] at h
+          right; refine ⟨u2, rfl, ?_⟩
+          rw [← h.1] at hb ⊢; exact W_b2c_pos _ _ hb (hd2 m hl2)
+        · simp only [Except.ok.injEq, Prod.mk.injEq] at h
+          left; rw [← h.1] at hb ⊢; exact W_b2c_pos _ _ hb (hd1 n hl1)
+        · by_cases hnm : n ≠ m
+          · rw [if_pos hnm] at h
+            simp at h
+          · rw [if_neg hnm] at h
+            simp only [Except.ok.injEq, Prod.mk.injEq] at h
+            left; rw [← h.1] at hb ⊢; exact W_b2c_pos _ _ hb (hd1 n hl1)
+
+/-! ## `maxBitsPerLine` -/
+
+def W_gc2 (c : PPCfg) : Nat := match c.f2 with | none => 0 | some f => f.b2c c.bpg
+def W_b2 (c : PPCfg) : Nat := if W_gc2 c ≠ 0 then 1 else 0
+def W_total (c : PPCfg) : Nat := c.f1.b2c c.bpg + W_gc2 c + c.sep.length + c.sep.length * W_b2 c
+def W_wex (c : PPCfg) (ow : Nat) : Nat := c.width - ow - c.f1.b2c c.bpg - W_gc2 c - 3 * W_b2 c
+
+theorem W_maxBits_grouped (c : PPCfg) (ow : Nat) (hb : c.bpg ≠ 0) (ht : W_total c ≠ 0) :
+    maxBitsPerLine c ow = .ok ((1 + W_wex c ow / W_total c) * c.bpg) := by
+  unfold maxBitsPerLine
+  rw [if_pos (by omega)]
+  show (if W_total c = 0 then _ else _) = _
+  rw [if_neg ht]
+  rfl
+
+theorem W_c24_ne (f1 f2 : Fmt) : f1.b2c 24 + f2.b2c 24 ≠ 0 := by
+  cases f1 <;> cases f2 <;> decide
+
+theorem W_maxBits_one (c : PPCfg) (ow : Nat) (hb : c.bpg = 0) (hf : c.f2 = none) :
+    maxBitsPerLine c ow = .ok (max (c.width - ow) 1 * c.f1.bpc) := by
+  unfold maxBitsPerLine
+  rw [if_neg (by omega)]
+  simp [hf, W_bitsPerChar]
+
+theorem W_maxBits_two (c : PPCfg) (ow : Nat) (hb : c.bpg = 0) (f2 : Fmt) (hf : c.f2 = some f2) :
+    maxBitsPerLine c ow = .ok (if 24 * (max (c.width - ow - 3) 1 / (c.f1.b2c 24 + f2.b2c 24)) = 0 then 24
+      else 24 * (max (c.width - ow - 3) 1 / (c.f1.b2c 24 + f2.b2c 24))) := by
+  unfold maxBitsPerLine
+  rw [if_neg (by omega)]
+  simp only [hf, Option.isSome_some, if_true, formatSep, List.length_cons, List.length_nil, Nat.mul_one]
+  rw [if_neg (W_c24_ne _ _)]
+
+/-! ## the lines of `ppLines` -/
+
+theorem W_xl_mono (f : Fmt) (bpg S : Nat) {l1 l2 : Nat} (h : l1 ≤ l2) : W_xl f bpg S l1 ≤ W_xl f bpg S l2 := by
+  unfold W_xl W_ng
+  by_cases hb : bpg = 0
+  · simp only [if_pos hb]; exact Nat.div_le_div_right h
+  · simp only [if_neg hb]
+    have hk : (l1 + bpg - 1) / bpg ≤ (l2 + bpg - 1) / bpg := Nat.div_le_div_right (by omega)
+    exact Nat.add_le_add (Nat.mul_le_mul_right _ hk) (Nat.mul_le_mul_right _ (Nat.sub_le_sub_right hk 1))
+
+theorem W_off_len (c : PPCfg) (data : Bits) {p : Nat} (hp : p ≤ data.length) :
+    (if c.showOffset then max (offsetWidth c data - 2) (natDec p).length + 2 else 0) = offsetWidth c data := by
+  unfold offsetWidth
+  have := W_natDec_length_le hp
+  split <;> omega
+
+theorem W_loop_head {c : PPCfg} {ow W1 W2 : Nat} {b : Bits} {rest : List Bits} {pos : Nat} {lines : List Line}
+    (h : W_loop c ow W1 W2 (b :: rest) pos = .ok lines) : ∃ l0, W_line c ow W1 W2 b pos = .ok l0 := by
+  simp only [W_loop] at h
+  cases hl : W_line c ow W1 W2 b pos with
+  | error e => rw [hl] at h; simp at h
+  | ok l0 => exact ⟨l0, rfl⟩
+
+/-- The visible length of every line (`L0` = the size of the first chunk). -/
+def W_len (c : PPCfg) (data : Bits) (L0 : Nat) : Nat :=
+  offsetWidth c data + W_xl c.f1 c.bpg c.sep.length L0 +
+    (match c.f2 with | none => 0 | some f2 => 3 + W_xl f2 c.bpg c.sep.length L0)
+
+theorem W_ppLines_lines {c : PPCfg} {data : Bits} {lines : List Line} (h : ppLines c data = .ok lines) :
+    ∃ m, maxBitsPerLine c (offsetWidth c data) = .ok m ∧ m ≠ 0 ∧
+      ∀ ln ∈ lines, ∃ b ∈ cut c.lsb0 m data, ∃ fb1, formatBits c.lsb0 b c.bpg c.sep c.f1 = .ok fb1 ∧
+        ln.groups1 = fb1.groups ∧
+        (∀ f2, c.f2 = some f2 → ∃ fb2, formatBits c.lsb0 b c.bpg c.sep f2 = .ok fb2 ∧
+          ln.groups2 = some fb2.groups) ∧
+        (c.f2 = none → ln.groups2 = none) ∧
+        ln.visible.length = W_len c data (min m data.length) ∧
+        ∃ p pad1 W2, ln.segs = W_segs c (offsetWidth c data) p fb1.x pad1 (W_sec c W2 b) := by
+  obtain ⟨m, hm, hm0, hloop⟩ := W_ppLines_ok h
+  refine ⟨m, hm, hm0, ?_⟩
+  intro ln hln
+  obtain ⟨b, p, hb, hp, hline⟩ := W_loop_ok _ _ _ hloop ln hln
+  have hcut := W_cut_ok c.lsb0 m hm0 data
+  rw [hcut.sum, Nat.zero_add] at hp
+  cases hc : cut c.lsb0 m data with
+  | nil => rw [hc] at hb; simp at hb
+  | cons b0 rest =>
+    have hb0 : b0.length = min m data.length := hcut.head b0 rest hc
+    have hble : b.length ≤ b0.length := by
+      have := hcut.size b hb; omega
+    rw [hc] at hloop hline
+    obtain ⟨l0, hl0⟩ := W_loop_head hloop
+    obtain ⟨fb10, h10, -, -, -, h20⟩ := W_line_ok hl0
+    obtain ⟨fb1, h1, hg1, hsegs, hn2, hs2⟩ := W_line_ok hline
+    have hW1 : W_fw c (some c.f1) (b0 :: rest) none = W_xl c.f1 c.bpg c.sep.length b0.length := by
+      simp only [W_fw, h10]; exact (W_formatBits_len h10).2
+    refine ⟨b, hc ▸ hb, fb1, h1, hg1, ?_, hn2, ?_, _, _, _, hsegs⟩
+    · intro f2 hf2
+      obtain ⟨fb2, h2, hg2, _⟩ := hs2 f2 hf2
+      exact ⟨fb2, h2, hg2⟩
+    · rw [W_visible_eq, hsegs, W_segs_vis_length, W_off_len c data (by omega), hW1, (W_formatBits_len h1).2,
+        W_len, ← hb0]
+      have hmono := W_xl_mono c.f1 c.bpg c.sep.length hble
+      cases hf2 : c.f2 with
+      | none =>
+        simp only [W_sec, hf2, W_secLen]
+        omega
+      | some f2 =>
+        obtain ⟨fb2, h2, -, hsec⟩ := hs2 f2 hf2
+        obtain ⟨fb20, h200, -, -⟩ := h20 f2 hf2
+        have hW2 : W_fw c (some f2) (b0 :: rest) none = W_xl f2 c.bpg c.sep.length b0.length := by
+          simp only [W_fw, h200]; exact (W_formatBits_len h200).2
+        have hmono2 := W_xl_mono f2 c.bpg c.sep.length hble
+        rw [hf2] at hsec
+        rw [hsec]
+        simp only [W_secLen, hW2, (W_formatBits_len h2).2]
+        omega
+
+/-! ## the width theorem -/
+
+theorem W_maxBits_grouped_inv {c : PPCfg} {ow m : Nat} (hb : c.bpg ≠ 0) (h : maxBitsPerLine c ow = .ok m) :
+    W_total c ≠ 0 ∧ m = (1 + W_wex c ow / W_total c) * c.bpg := by
+  by_cases ht : W_total c = 0
+  · exfalso
+    unfold maxBitsPerLine at h
+    rw [if_pos (by omega)] at h
+    have h' : (if W_total c = 0 then (Except.error (.internal "ZeroDivisionError") : Except Err Nat) else
+        .ok ((1 + W_wex c ow / W_total c) * c.bpg)) = .ok m := h
+    rw [if_pos ht] at h'
+    simp at h'
+  · rw [W_maxBits_grouped c ow hb ht] at h
+    simp only [Except.ok.injEq] at h
+    exact ⟨ht, h.symm⟩
+
+theorem W_arith1 (j q g S wex : Nat) (hj : j ≤ q) (hq : q * (g + S) ≤ wex) :
+    (j + 1) * g + j * S ≤ g + wex := by
+  have h := Nat.mul_le_mul_right (g + S) hj
+  have e : j * (g + S) = j * g + j * S := Nat.mul_add ..
+  rw [Nat.succ_mul]
+  omega
+
+theorem W_arith2 (j q g1 g2 S wex : Nat) (hj : j ≤ q) (hq : q * (g1 + g2 + S + S) ≤ wex) :
+    (j + 1) * g1 + j * S + (3 + ((j + 1) * g2 + j * S)) ≤ g1 + g2 + 3 + wex := by
+  have h := Nat.mul_le_mul_right (g1 + g2 + S + S) hj
+  have e : j * (g1 + g2 + S + S) = j * g1 + j * g2 + j * S + j * S := by simp only [Nat.mul_add]
+  rw [Nat.succ_mul, Nat.succ_mul]
+  omega
+
+theorem W_arith24 (f1 f2 : Fmt) (L0 wa : Nat) (hq : 24 * (wa / (f1.b2c 24 + f2.b2c 24)) ≠ 0)
+    (hL : L0 ≤ 24 * (wa / (f1.b2c 24 + f2.b2c 24))) : L0 / f1.bpc + L0 / f2.bpc ≤ wa ∧ 2 ≤ wa := by
+  cases f1 <;> cases f2 <;> simp [Fmt.b2c, Fmt.bpc] at * <;> omega
+
+theorem W_ng_bounds {bpg L gpl : Nat} (hb : bpg ≠ 0) (hL0 : 0 < L) (hL : L ≤ gpl * bpg) :
+    1 ≤ (L + bpg - 1) / bpg ∧ (L + bpg - 1) / bpg ≤ gpl := by
+  constructor
+  · exact Nat.div_pos (by omega) (by omega)
+  · have : (L + bpg - 1) / bpg < gpl + 1 := by
+      rw [Nat.div_lt_iff_lt_mul (by omega), Nat.succ_mul]; omega
+    omega
+
+theorem W_width {c : PPCfg} {data : Bits} {lines : List Line} (h : ppLines c data = .ok lines) :
+    ∀ ln ∈ lines, ln.visible.length ≤ c.width ∨
+      (if c.bpg ≠ 0 then ln.groups1.length = 1
+       else match c.f2 with
+         | none => ∃ ch, ln.groups1 = [[ch]]
+         | some _ => ln.groups1.length = 1 ∧ ln.groups1.flatten.length * c.f1.bpc ≤ 24) := by
+  obtain ⟨m, hm, hm0, hl⟩ := W_ppLines_lines h
+  intro ln hln
+  obtain ⟨b, hb, fb1, h1, hg1, hs2, -, hvis, -⟩ := hl ln hln
+  have hcut := W_cut_ok c.lsb0 m hm0 data
+  have hsz := hcut.size b hb
+  have hbne : b ≠ [] := List.length_pos_iff.mp hsz.1
+  have hL0 : 0 < min m data.length := by omega
+  have hL0m : min m data.length ≤ m := by omega
+  rw [hvis]
+  generalize min m data.length = L0 at hL0 hL0m ⊢
+  unfold W_len
+  by_cases hbpg : c.bpg ≠ 0
+  · -- grouped
+    rw [if_pos hbpg]
+    obtain ⟨ht, hmeq⟩ := W_maxBits_grouped_inv hbpg hm
+    obtain ⟨hlen1, -, -, hgc1⟩ := W_formatBits_pos hbpg h1
+    have hgc1 := hgc1 hbne
+    rw [hmeq] at hL0m
+    obtain ⟨hk1, hk⟩ := W_ng_bounds hbpg hL0 hL0m
+    obtain ⟨j, hj⟩ : ∃ j, (L0 + c.bpg - 1) / c.bpg = j + 1 := ⟨(L0 + c.bpg - 1) / c.bpg - 1, by omega⟩
+    have hqT := Nat.div_mul_le_self (W_wex c (offsetWidth c data)) (W_total c)
+    simp only [W_xl, W_ng, if_neg hbpg, hj, Nat.add_sub_cancel]
+    rw [hj] at hk
+    rw [hmeq] at hsz
+    generalize W_wex c (offsetWidth c data) / W_total c = q at hqT hk hsz
+    have hq0 : W_wex c (offsetWidth c data) = 0 → q = 0 := by
+      intro h0
+      rw [h0] at hqT
+      rcases Nat.mul_eq_zero.mp (Nat.le_zero.mp hqT) with h | h
+      · exact h
+      · exact absurd h ht
+    cases hf2 : c.f2 with
+    | none =>
+      have hgc2 : W_gc2 c = 0 := by simp [W_gc2, hf2]
+      have hb2 : W_b2 c = 0 := by simp [W_b2, hgc2]
+      have hT : W_total c = c.f1.b2c c.bpg + c.sep.length := by simp [W_total, hgc2, hb2]
+      have hwex : W_wex c (offsetWidth c data) = c.width - offsetWidth c data - c.f1.b2c c.bpg := by
+        simp [W_wex, hgc2, hb2]
+      rw [hT] at hqT
+      have ha := W_arith1 j _ _ _ _ (by omega) hqT
+      simp only [Nat.add_zero]
+      by_cases hw : offsetWidth c data + c.f1.b2c c.bpg ≤ c.width
+      · left; omega
+      · right
+        have h0 : q = 0 := hq0 (by omega)
+        rw [h0] at hsz
+        rw [hg1, hlen1]
+        exact Nat.div_eq_of_lt_le (by omega) (by omega)
+    | some f2 =>
+      obtain ⟨fb2, h2, -⟩ := hs2 f2 hf2
+      obtain ⟨-, -, -, hgc2'⟩ := W_formatBits_pos hbpg h2
+      have hgc2' := hgc2' hbne
+      have hgc2 : W_gc2 c = f2.b2c c.bpg := by simp [W_gc2, hf2]
+      have hb2 : W_b2 c = 1 := by simp [W_b2, hgc2]; omega
+      have hT : W_total c = c.f1.b2c c.bpg + f2.b2c c.bpg + c.sep.length + c.sep.length := by
+        simp [W_total, hgc2, hb2]
+      have hwex : W_wex c (offsetWidth c data)
+          = c.width - offsetWidth c data - c.f1.b2c c.bpg - f2.b2c c.bpg - 3 := by
+        simp [W_wex, hgc2, hb2]
+      rw [hT] at hqT
+      have ha := W_arith2 j _ _ _ _ _ (by omega) hqT
+      simp only []
+      by_cases hw : offsetWidth c data + c.f1.b2c c.bpg + f2.b2c c.bpg + 3 ≤ c.width
+      · left; omega
+      · right
+        have h0 : q = 0 := hq0 (by omega)
+        rw [h0] at hsz
+        rw [hg1, hlen1]
+        exact Nat.div_eq_of_lt_le (by omega) (by omega)
+  · -- ungrouped
+    rw [if_neg hbpg]
+    have hbpg : c.bpg = 0 := by omega
+    rw [hbpg] at h1
+    obtain ⟨hmod1, hgrp1, hx1⟩ := W_formatBits_zero h1
+    have hbp1 := W_bpc_pos c.f1
+    simp only [W_xl, hbpg, if_true]
+    cases hf2 : c.f2 with
+    | none =>
+      rw [W_maxBits_one c _ hbpg hf2] at hm
+      simp only [Except.ok.injEq] at hm
+      simp only [Nat.add_zero]
+      have hdiv : L0 / c.f1.bpc ≤ max (c.width - offsetWidth c data) 1 :=
+        Nat.div_le_of_le_mul (by rw [Nat.mul_comm, hm]; exact hL0m)
+      by_cases hw : offsetWidth c data + 1 ≤ c.width
+      · left; omega
+      · right
+        have hwa : max (c.width - offsetWidth c data) 1 = 1 := by omega
+        rw [hwa, Nat.one_mul] at hm
+        have hble : c.f1.bpc ≤ b.length := Nat.le_of_dvd hsz.1 (Nat.dvd_of_mod_eq_zero hmod1)
+        have hbl : b.length = c.f1.bpc := by omega
+        have hd : (digits c.f1 b).length = 1 := by
+          rw [W_digits_length, hbl]; exact Nat.div_self hbp1
+        obtain ⟨ch, hch⟩ := List.length_eq_one_iff.mp hd
+        exact ⟨ch, by rw [hg1, hgrp1, hch]⟩
+    | some f2 =>
+      rw [W_maxBits_two c _ hbpg f2 hf2] at hm
+      simp only [Except.ok.injEq] at hm
+      simp only []
+      by_cases hq : 24 * (max (c.width - offsetWidth c data - 3) 1 / (c.f1.b2c 24 + f2.b2c 24)) = 0
+      · right
+        rw [if_pos hq] at hm
+        rw [hg1, hgrp1]
+        refine ⟨rfl, ?_⟩
+        simp only [List.flatten_cons, List.flatten_nil, List.append_nil, W_digits_length]
+        have := Nat.div_mul_le_self b.length c.f1.bpc
+        omega
+      · left
+        rw [if_neg hq] at hm
+        rw [← hm] at hL0m
+        have := W_arith24 c.f1 f2 L0 _ hq hL0m
+        omega
+
+/-! ## no escape character in the text -/
+
+theorem W_digitChar_ne (n : Nat) : digitChar n ≠ '\x1b' := by
+  unfold digitChar; split <;> decide
+
+theorem W_esc_binDigits : ∀ b : Bits, '\x1b' ∉ binDigits b
+  | [] => by simp [binDigits]
+  | a :: t => by
+    simp only [binDigits, List.mem_cons, not_or]
+    exact ⟨fun h => W_digitChar_ne _ h.symm, W_esc_binDigits t⟩
+
+theorem W_esc_octDigits : ∀ b : Bits, '\x1b' ∉ octDigits b
+  | [] => by simp [octDigits]
+  | [_] => by simp [octDigits]
+  | [_, _] => by simp [octDigits]
+  | _ :: _ :: _ :: t => by
+    simp only [octDigits, List.mem_cons, not_or]
+    exact ⟨fun h => W_digitChar_ne _ h.symm, W_esc_octDigits t⟩
+
+theorem W_esc_hexDigits : ∀ b : Bits, '\x1b' ∉ hexDigits b
+  | [] => by simp [hexDigits]
+  | [_] => by simp [hexDigits]
+  | [_, _] => by simp [hexDigits]
+  | [_, _, _] => by simp [hexDigits]
+  | _ :: _ :: _ :: _ :: t => by
+    simp only [hexDigits, List.mem_cons, not_or]
+    exact ⟨fun h => W_digitChar_ne _ h.symm, W_esc_hexDigits t⟩
+
+theorem W_esc_digits (f : Fmt) (b : Bits) : '\x1b' ∉ digits f b := by
+  cases f
+  · exact W_esc_binDigits b
+  · exact W_esc_octDigits b
+  · exact W_esc_hexDigits b
+
+theorem W_esc_natDecAux : ∀ (fuel n : Nat) (acc : Str), '\x1b' ∉ acc → '\x1b' ∉ natDecAux fuel n acc := by
+  intro fuel
+  induction fuel with
+  | zero => intro n acc h; simpa [natDecAux] using h
+  | succ fuel ih =>
+    intro n acc h
+    simp only [natDecAux]
+    have h' : '\x1b' ∉ digitChar (n % 10) :: acc := by
+      simp only [List.mem_cons, not_or]
+      exact ⟨fun h => W_digitChar_ne _ h.symm, h⟩
+    split
+    · exact h'
+    · exact ih _ _ h'
+
+theorem W_esc_natDec (n : Nat) : '\x1b' ∉ natDec n :=
+  W_esc_natDecAux _ _ _ (by simp)
+
+theorem W_esc_joinSep (sep : Str) (hs : '\x1b' ∉ sep) : ∀ l : List Str, (∀ s ∈ l, '\x1b' ∉ s) →
+    '\x1b' ∉ joinSep sep l
+  | [], _ => by simp [joinSep]
+  | [a], h => by simpa [joinSep] using h a (List.mem_cons_self ..)
+  | a :: b :: t, h => by
+    have ih := W_esc_joinSep sep hs (b :: t) (fun s hs => h s (List.mem_cons_of_mem _ hs))
+    have ha := h a (List.mem_cons_self ..)
+    simp only [joinSep, List.mem_append, not_or]
+    exact ⟨⟨ha, hs⟩, ih⟩
+
+theorem W_esc_formatBits {lsb0 : Bool} {bits : Bits} {bpg : Nat} {sep : Str} {f : Fmt} {fb : Fb}
+    (h : formatBits lsb0 bits bpg sep f = .ok fb) (hs : '\x1b' ∉ sep) : '\x1b' ∉ fb.x := by
+  by_cases hb : bpg = 0
+  · subst hb
+    rw [(W_formatBits_zero h).2.2]; exact W_esc_digits _ _
+  · obtain ⟨-, hx, hg, -⟩ := W_formatBits_pos hb h
+    rw [hx]
+    apply W_esc_joinSep sep hs
+    intro s hsm
+    rcases List.mem_map.mp hsm with ⟨g, hgm, rfl⟩
+    obtain ⟨-, b, rfl⟩ := hg g hgm
+    have := W_esc_digits f b
+    cases lsb0 <;> simp [padLeft, padRight, this]
+
+theorem W_esc_strFormAlg (lsb0 : Bool) (l : Bits) : '\x1b' ∉ strFormAlg lsb0 l := by
+  have hh := W_esc_hexDigits
+  have hbn := W_esc_binDigits
+  unfold strFormAlg
+  simp only
+  split
+  · simp
+  · split
+    · simp [pre0x, dots, hh]
+    · split
+      · simp [pre0b, hbn]
+      · split
+        · simp [pre0x, hh]
+        · simp [pre0x, pre0b, commaSp, hh, hbn]
+
+theorem W_sec_some {c : PPCfg} {W2 : Nat} {b : Bits} {x2 : Str} {pad2 : Nat}
+    (h : W_sec c W2 b = some (x2, pad2)) :
+    ∃ f2 fb2, c.f2 = some f2 ∧ formatBits c.lsb0 b c.bpg c.sep f2 = .ok fb2 ∧ x2 = fb2.x := by
+  unfold W_sec at h
+  cases hf2 : c.f2 with
+  | none => rw [hf2] at h; simp at h
+  | some f2 =>
+    rw [hf2] at h
+    simp only at h
+    cases h2 : formatBits c.lsb0 b c.bpg c.sep f2 with
+    | error e => rw [h2] at h; simp at h
+    | ok fb2 =>
+      rw [h2] at h
+      simp only [Option.some.injEq, Prod.mk.injEq] at h
+      exact ⟨f2, fb2, rfl, h2, h.1.symm⟩
+
+/-! ## `maxBitsPerLine` cannot fail after `processTokens` -/
+
+theorem W_maxBits_ok {a : PPArgs} {bpg : Nat} {hasLen : Bool}
+    (ht : processTokens a.t1 a.t2 = .ok (bpg, hasLen)) (ow : Nat) :
+    ∃ m, maxBitsPerLine (cfgOf a bpg) ow = .ok m ∧ m ≠ 0 ∧
+      (bpg ≠ 0 → ∃ gpl, m = gpl * bpg) ∧
+      (bpg = 0 → m % a.t1.fmt.bpc = 0 ∧ ∀ t2, a.t2 = some t2 → m % t2.fmt.bpc = 0) := by
+  by_cases hb : bpg = 0
+  · subst hb
+    rcases ht2 : a.t2 with _ | t2
+    · have := W_maxBits_one (cfgOf a 0) ow rfl (by simp [cfgOf, ht2])
+      refine ⟨_, this, ?_, fun h => absurd rfl h, fun _ => ⟨?_, by simp⟩⟩
+      · have := W_bpc_pos a.t1.fmt
+        exact Nat.mul_ne_zero (by omega) (by simp only [cfgOf]; omega)
+      · simp [cfgOf]
+    · have := W_maxBits_two (cfgOf a 0) ow rfl t2.fmt (by simp [cfgOf, ht2])
+      have h1 := W_bpc_dvd_24 a.t1.fmt
+      have h2 := W_bpc_dvd_24 t2.fmt
+      refine ⟨_, this, ?_, fun h => absurd rfl h, fun _ => ⟨?_, ?_⟩⟩
+      · split <;> omega
+      · split
+        · exact h1
+        · rw [Nat.mul_mod, h1]; simp
+      · intro t2' ht2'
+        simp only [Option.some.injEq] at ht2'; subst ht2'
+        split
+        · exact h2
+        · rw [Nat.mul_mod, h2]; simp
+  · have hch := W_processTokens_chars ht hb
+    have htot : W_total (cfgOf a bpg) ≠ 0 := by
+      rcases hch with h | ⟨u, hu, h⟩
+      · simp only [W_total, cfgOf]; omega
+      · have : W_gc2 (cfgOf a bpg) = u.fmt.b2c bpg := by simp [W_gc2, cfgOf, hu]
+        simp only [W_total, this]; omega
+    refine ⟨_, W_maxBits_grouped (cfgOf a bpg) ow hb htot, ?_, fun _ => ⟨_, rfl⟩, fun h => absurd h hb⟩
+    exact Nat.mul_ne_zero (by rw [Nat.add_comm]; exact Nat.succ_ne_zero _) hb
+
+/-! ## `formatBits` succeeds on whole digits -/
+
+theorem W_getDigits_succeeds {f : Fmt} {b : Bits} (h : b.length % f.bpc = 0) : ∃ d, getDigits f b = .ok d := by
+  unfold getDigits
+  rw [if_neg (by omega)]
+  exact ⟨_, rfl⟩
+
+theorem W_formatBits_succeeds (lsb0 : Bool) (bits : Bits) (bpg : Nat) (sep : Str) (f : Fmt)
+    (h0 : bpg = 0 → bits.length % f.bpc = 0)
+    (h1 : bpg ≠ 0 → bpg % f.bpc = 0 ∧ bits.length % bpg % f.bpc = 0) :
+    ∃ fb, formatBits lsb0 bits bpg sep f = .ok fb := by
+  unfold formatBits
+  by_cases hb : bpg = 0
+  · rw [if_pos hb]
+    obtain ⟨d, hd⟩ := W_getDigits_succeeds (h0 hb)
+    rw [hd]; exact ⟨_, rfl⟩
+  · rw [if_neg hb]
+    obtain ⟨h1, h2⟩ := h1 hb
+    have hcut := W_cut_ok lsb0 bpg hb bits
+    obtain ⟨gs, hgs⟩ := W_mapE_succeeds (getDigits f) (cut lsb0 bpg bits) (by
+      intro g hg
+      apply W_getDigits_succeeds
+      rcases (hcut.size g hg).2.2.2 with h | h <;> rw [h] <;> assumption)
+    simp only [hgs]
+    exact ⟨_, rfl⟩
+
+theorem W_mod_mod_bpc {L bpg k : Nat} (hL : L % k = 0) (hb : bpg % k = 0) : L % bpg % k = 0 :=
+  Nat.mod_eq_zero_of_dvd ((Nat.dvd_mod_iff (Nat.dvd_of_mod_eq_zero hb)).mpr (Nat.dvd_of_mod_eq_zero hL))
+
+/-- Every chunk of `cut m data` formats, when the data and the group size are whole digits. -/
+theorem W_chunk_formats (lsb0 : Bool) (data : Bits) (m bpg : Nat) (sep : Str) (f : Fmt) (hm : m ≠ 0)
+    (hL : data.length % f.bpc = 0) (hbpg : bpg % f.bpc = 0)
+    (hm1 : bpg ≠ 0 → ∃ gpl, m = gpl * bpg) (hm0 : bpg = 0 → m % f.bpc = 0) :
+    ∀ b ∈ cut lsb0 m data, ∃ fb, formatBits lsb0 b bpg sep f = .ok fb := by
+  intro b hb
+  have hsz := (W_cut_ok lsb0 m hm data).size b hb
+  apply W_formatBits_succeeds
+  · intro h0
+    rcases hsz.2.2.2 with h | h <;> rw [h]
+    · exact hm0 h0
+    · exact W_mod_mod_bpc hL (hm0 h0)
+  · intro h1
+    refine ⟨hbpg, ?_⟩
+    obtain ⟨gpl, rfl⟩ := hm1 h1
+    rcases hsz.2.2.2 with h | h <;> rw [h]
+    · simp
+    · rw [Nat.mod_mul_left_mod]; exact W_mod_mod_bpc hL hbpg
+
+/-! ## colour does not change what is shown -/
+
+def W_proj (ln : Line) : Str × List Str × Option (List Str) := (ln.visible, ln.groups1, ln.groups2)
+
+theorem W_line_colour (c : PPCfg) (ow W1 W2 : Nat) (b : Bits) (p : Nat) :
+    (W_line c ow W1 W2 b p).map W_proj = (W_line { c with colour := false } ow W1 W2 b p).map W_proj := by
+  rcases c with ⟨f1, f2, bpg, width, sep, so, lsb0, colour⟩
+  simp only [W_line]
+  cases formatBits lsb0 b bpg sep f1 with
+  | error e => rfl
+  | ok fb1 =>
+    cases f2 with
+    | none =>
+      simp only [Except.map, W_proj, W_visible_eq]
+      rw [W_segs_vis_colour]
+    | some f2 =>
+      simp only
+      cases formatBits lsb0 b bpg sep f2 with
+      | error e => rfl
+      | ok fb2 =>
+        simp only [Except.map, W_proj, W_visible_eq]
+        rw [W_segs_vis_colour]
+
+theorem W_loop_colour (c : PPCfg) (ow W1 W2 : Nat) : ∀ (chunks : List Bits) (pos : Nat),
+    (W_loop c ow W1 W2 chunks pos).map (List.map W_proj)
+      = (W_loop { c with colour := false } ow W1 W2 chunks pos).map (List.map W_proj)
+  | [], pos => rfl
+  | b :: rest, pos => by
+    have hl := W_line_colour c ow W1 W2 b pos
+    have ih := W_loop_colour c ow W1 W2 rest (pos + b.length)
+    simp only [W_loop]
+    cases hA : W_line c ow W1 W2 b pos <;> cases hB : W_line { c with colour := false } ow W1 W2 b pos <;>
+      rw [hA, hB] at hl <;> simp only [Except.map, Except.error.injEq, Except.ok.injEq, reduceCtorEq] at hl
+    · subst hl; rfl
+    · cases hA' : W_loop c ow W1 W2 rest (pos + b.length) <;>
+        cases hB' : W_loop { c with colour := false } ow W1 W2 rest (pos + b.length) <;>
+        rw [hA', hB'] at ih <;> simp only [Except.map, Except.error.injEq, Except.ok.injEq, reduceCtorEq] at ih
+      · subst ih; rfl
+      · simp only [Except.map, List.map_cons, hl, ih]
+
+theorem W_ppLines_colour (c : PPCfg) (data : Bits) :
+    (ppLines c data).map (List.map W_proj)
+      = (ppLines { c with colour := false } data).map (List.map W_proj) := by
+  have e1 : offsetWidth { c with colour := false } data = offsetWidth c data := rfl
+  have e2 : ∀ ow, maxBitsPerLine { c with colour := false } ow = maxBitsPerLine c ow := fun _ => rfl
+  unfold ppLines
+  simp only [e1, e2]
+  cases maxBitsPerLine c (offsetWidth c data) with
+  | error e => rfl
+  | ok m =>
+    simp only
+    by_cases h0 : m = 0
+    · rw [if_pos h0, if_pos h0]
+    · rw [if_neg h0, if_neg h0, W_ppLoop_eq, W_ppLoop_eq]
+      exact W_loop_colour c _ _ _ _ _
 
 end BM.C19
